@@ -8,7 +8,10 @@ import (
 	"sort"
 	"strings"
 	"sync/atomic"
+	"time"
 
+	"github.com/nats-io/nats.go"
+	"github.com/simpleiot/simpleiot/client"
 	"github.com/simpleiot/simpleiot/data"
 	"github.com/simpleiot/simpleiot/store"
 )
@@ -103,7 +106,99 @@ func storeDump(db *store.DbSqlite) string {
 	return "root=" + hxs(root) + " | " + joinListSep(es, " ") + " | " + joinListSep(ns, " ")
 }
 
+// busDump: the content of an instance as the bus shows it: every edge reachable from the root (deleted ones included)
+// with its hash and edge points, every reachable node with its points — in the format of storeDump.
+func busDump(nc *nats.Conn) string {
+	roots, err := client.GetNodes(nc, "root", "all", "", true)
+	if err != nil || len(roots) < 1 {
+		return "DUMPERR no root"
+	}
+	var es []string
+	nodes := map[string]string{}
+	seenEdge := map[string]bool{}
+	var walk func(n data.NodeEdge, depth int)
+	walk = func(n data.NodeEdge, depth int) {
+		k := n.Parent + "/" + n.ID
+		if seenEdge[k] || depth > 40 {
+			return
+		}
+		seenEdge[k] = true
+		var eps, nps []string
+		for _, p := range n.EdgePoints {
+			eps = append(eps, spStr(p, false))
+		}
+		sort.Strings(eps)
+		es = append(es, fmt.Sprintf("E %s,%s,%s,%d/%s", hxs(n.Parent), hxs(n.ID), hxs(n.Type), n.Hash, joinListSep(eps, "+")))
+		for _, p := range n.Points {
+			nps = append(nps, spStr(p, false))
+		}
+		if len(nps) > 0 {
+			sort.Strings(nps)
+			nodes[n.ID] = fmt.Sprintf("N %s/%s", hxs(n.ID), strings.Join(nps, "+"))
+		}
+		kids, err := client.GetNodes(nc, n.ID, "all", "", true)
+		if err != nil {
+			return
+		}
+		for _, c := range kids {
+			walk(c, depth+1)
+		}
+	}
+	for _, r := range roots {
+		walk(r, 0)
+	}
+	sort.Strings(es)
+	var ns []string
+	for _, v := range nodes {
+		ns = append(ns, v)
+	}
+	sort.Strings(ns)
+	return "root=" + hxs(roots[0].ID) + " | " + joinListSep(es, " ") + " | " + joinListSep(ns, " ")
+}
+
+// storeRunBus: the same ops on a fresh in-process instance, sent and read back over the bus
+func storeRunBus(c string) string {
+	b, err := busStart("R", "", nil)
+	if err != nil {
+		return "SETUP " + err.Error()
+	}
+	defer b.stop()
+	// the instance writes its application version to the root node shortly after start: wait for it, so that it is
+	// part of the initial content
+	for i := 0; i < 200; i++ {
+		if ns, err := client.GetNodes(b.nc, "root", "all", "", false); err == nil && len(ns) > 0 {
+			if _, ok := ns[0].Points.Find(data.PointTypeVersionApp, ""); ok {
+				break
+			}
+		}
+		time.Sleep(5 * time.Millisecond)
+	}
+	d0 := busDump(b.nc)
+	var res []string
+	for _, op := range strings.Split(strings.Fields(c)[0], ";") {
+		p := strings.Split(op, ":")
+		var err error
+		switch p[0] {
+		case "np":
+			err = client.SendNodePoints(b.nc, string(unhx(p[1])), parseSpts(p[2]), true)
+		case "ep":
+			err = client.SendEdgePoints(b.nc, string(unhx(p[1])), string(unhx(p[2])), parseSpts(p[3]), true)
+		default:
+			panic("store bus: bad op " + p[0])
+		}
+		if err != nil {
+			res = append(res, "err")
+		} else {
+			res = append(res, "ok")
+		}
+	}
+	return d0 + " ## " + strings.Join(res, ",") + " ## " + busDump(b.nc)
+}
+
 func storeRun(c string) string {
+	if strings.HasPrefix(c, "B=") {
+		return storeRunBus(strings.TrimPrefix(c, "B="))
+	}
 	db, f := newStore()
 	defer closeStore(db, f)
 	d0 := storeDump(db)
